@@ -13,7 +13,7 @@ FAMILIES = ["merge"]
 DEVS = {"count": "C08_Step", "lifecycle": "C08_Step", "mergedlive": "X08_MergedRevisionLive", "thr": "C08_Step",
         "mergeany": "C08_Step"}
 QUICK_DEVS = 3
-REC = {False: (20, 22), True: (120, 40)}
+REC = {False: (20, 22), True: (60, 30)}
 REC_WHAT = "random merge-heavy patch histories (6 actors, 3 documents with thresholds 2,3,2) through storage + cob::get"
 RULE = ("cases = every distinct reachable state of the bounded merge instance (3 delegates + 1 stranger, documents with "
         "thresholds 1..n, revisions by different authors, commits on / off the mergers' default branches, redactions, "
